@@ -808,6 +808,8 @@ class Model:
             while n < len(seq) and interp.truth(interp.call(args[0], [seq[n]], {}, node), node):
                 n += 1
             return GenResult(seq[:n] if path.endswith('takewhile') else seq[n:])
+        if path == 'itertools.chain.from_iterable' and len(args) == 1 and not isinstance(args[0], Opaque):
+            return GenResult(x for part in interp.iterate(args[0], node) for x in interp.iterate(part, node))
         if path == 'itertools.chain' and not any(isinstance(a, Opaque) for a in args):
             return [x for a in args for x in interp.iterate(a, node)]
         if path == 'itertools.islice' and len(args) >= 2 and all(isinstance(a, int) or a is None for a in args[1:]):
